@@ -1,11 +1,16 @@
-(* run_C04.ml — resolve <entries>   entries: f (full) or d<base> comma separated  -> ok:<n resolved> | unresolved | fuel *)
+(* run_C04.ml — resolve <entries>   entries: f (full) or d<base> comma separated  -> ok:<n resolved> | unresolved | fuel ;  read <entries> <i> -> ok | error | fuel *)
 let rec nat_of_int n = if n = 0 then O else S (nat_of_int (n - 1))
+let entries es = List.map (fun x -> if x = "f" then EFull else EDelta (nat_of_int (int_of_string (String.sub x 1 (String.length x - 1))))) (String.split_on_char ',' es)
 let handle = function
   | ["resolve"; es] ->
-      let l = List.map (fun x -> if x = "f" then EFull else EDelta (nat_of_int (int_of_string (String.sub x 1 (String.length x - 1))))) (String.split_on_char ',' es) in
-      (match resolve l with
+      (match resolve (entries es) with
        | None -> "fuel"
        | Some None -> "unresolved"
        | Some (Some r) -> "ok:" ^ string_of_int (List.length r))
+  | ["read"; es; i] ->
+      (match read_entry (entries es) (nat_of_int (int_of_string i)) with
+       | None -> "fuel"
+       | Some None -> "error"
+       | Some (Some _) -> "ok")
   | _ -> "EXN bad request"
 let () = serve handle
